@@ -166,6 +166,9 @@ func runCRASH(e *Env) (*Summary, error) {
 						return
 					}
 					done := make(chan struct{})
+					// the watchdog bounds ONE statement (it is re-armed by every START/DONE line), not the range
+					timer := time.AfterFunc(crashStmtTimeout, func() { cmd.Process.Kill() })
+					rearm := func() { timer.Reset(crashStmtTimeout) }
 					var last uint64
 					var lastQ string
 					inFlight := false
@@ -179,6 +182,7 @@ func runCRASH(e *Env) (*Summary, error) {
 							}
 							var ix uint64
 							fmt.Sscan(f[1], &ix)
+							rearm()
 							if f[0] == "START" {
 								last, lastQ, inFlight = ix, string(unhx(f[2])), true
 							} else if f[0] == "DONE" {
@@ -202,7 +206,6 @@ func runCRASH(e *Env) (*Summary, error) {
 						}
 						close(done)
 					}()
-					timer := time.AfterFunc(120*time.Second, func() { cmd.Process.Kill() })
 					<-done
 					werr := cmd.Wait()
 					timer.Stop()
@@ -211,6 +214,14 @@ func runCRASH(e *Env) (*Summary, error) {
 						kind := "fatal"
 						if werr != nil && strings.Contains(werr.Error(), "killed") {
 							kind = "timeout-or-killed"
+							// a loaded machine can make a heavy statement slow: run it again ALONE with a generous
+							// limit before calling it a hang
+							if crashSolo(self, e.Seed, last) {
+								col.Eval(1)
+								col.Hist("slow-under-load-completes-alone")
+								from = last + 1
+								continue
+							}
 						}
 						col.Eval(1)
 						col.Hist(kind)
@@ -226,6 +237,29 @@ func runCRASH(e *Env) (*Summary, error) {
 	}
 	wg.Wait()
 	return col.Finish(start), nil
+}
+
+const crashStmtTimeout = 120 * time.Second
+
+// crashSolo runs one statement index alone in a worker of its own with a generous limit; true = it completed
+func crashSolo(self string, seed, ix uint64) bool {
+	cmd := exec.Command(self)
+	cmd.Env = append(os.Environ(), "KVH_CRASH_WORKER=1", fmt.Sprintf("KVH_CRASH_RANGE=%d %d %d", seed, ix, ix+1), "GOMEMLIMIT=2GiB", "GOMAXPROCS=2")
+	out, err := cmd.StdoutPipe()
+	if err != nil || cmd.Start() != nil {
+		return false
+	}
+	timer := time.AfterFunc(600*time.Second, func() { cmd.Process.Kill() })
+	defer timer.Stop()
+	completed := false
+	sc := bufio.NewScanner(out)
+	sc.Buffer(make([]byte, 1<<20), 1<<24)
+	for sc.Scan() {
+		if strings.HasPrefix(sc.Text(), "DONE ") && !strings.Contains(sc.Text(), " panic") {
+			completed = true
+		}
+	}
+	return cmd.Wait() == nil && completed
 }
 
 func crashDecode(s string) string {
